@@ -537,6 +537,21 @@ func c18domainPortsFile(c *drv.Ctx) {
 			longest = L
 		}
 	}
+	// lines longer than a reader's internal buffer (4096, 8192, 16384 bytes) and far below the 64 kB limit:
+	// ordinary lines as far as the format goes. A comment whose tail looks like an entry, an entry pushed
+	// across the buffer boundary by leading or trailing blanks: every byte offset around the boundary.
+	for _, B := range []int{4096, 8192, 16384} {
+		for L := B - 3; L <= B+6; L++ {
+			for _, v := range []struct{ name, content string }{
+				{"80 | comment of %d bytes ending in ' 8080' | 443", "80\n#" + strings.Repeat("x", L-6) + " 8080\n443\n"},
+				{"80 | entry 8080 after %d-4 blanks | 443", "80\n" + strings.Repeat(" ", L-4) + "8080\n443\n"},
+				{"80 | entry 1000-2000 after %d-9 blanks | 443", "80\n" + strings.Repeat(" ", L-9) + "1000-2000\n443\n"},
+				{"80 | entry 22 followed by blanks to %d bytes and '#9' | 443", "80\n22" + strings.Repeat(" ", L-4) + "#9\n443\n"},
+			} {
+				judge(v.content, "<"+fmt.Sprintf(v.name, L)+">", false)
+			}
+		}
+	}
 	c.Set("portsfile_line_sequences", nseq)
 	c.Set("portsfile_longest_line_without_disagreement", longest)
 	k.flush(c, 8)
@@ -684,6 +699,18 @@ func c18domainExcludeFile(c *drv.Ctx) {
 				}
 			}); pan != nil {
 				k.add("panic", content, fmt.Sprintf("parseExcludeFile(%q) (or Contains on its result) panicked: %v", content, pan))
+			}
+		}
+	}
+	// lines longer than a reader's internal buffer and far below the 64 kB limit (see the ports file)
+	for _, B := range []int{4096, 8192, 16384} {
+		for L := B - 3; L <= B+6; L++ {
+			for _, v := range []struct{ name, content string }{
+				{"10.0.0.0/8 | comment of %d bytes ending in ' 1.2.3.0/24' | 192.168.0.0/16", "10.0.0.0/8\n#" + strings.Repeat("x", L-12) + " 1.2.3.0/24\n192.168.0.0/16\n"},
+				{"10.0.0.0/8 | entry 1.2.3.0/24 followed by blanks to %d bytes and '#9' | 192.168.0.0/16", "10.0.0.0/8\n1.2.3.0/24" + strings.Repeat(" ", L-12) + "#9\n192.168.0.0/16\n"},
+				{"10.0.0.0/8 | entry 1.2.3.0/24 after %d-10 blanks | 192.168.0.0/16", "10.0.0.0/8\n" + strings.Repeat(" ", L-10) + "1.2.3.0/24\n192.168.0.0/16\n"},
+			} {
+				judge(v.content, "<"+fmt.Sprintf(v.name, L)+">", false)
 			}
 		}
 	}
